@@ -1,6 +1,7 @@
 package main
 
 import (
+	"math"
 	"strconv"
 
 	"gopkg.in/typ.v4/arrays"
@@ -29,6 +30,30 @@ func driveArray2D(plan []M, out *Out, _ []string) {
 				}
 				v, _ := strconv.Atoi(x[1:])
 				return v
+			})
+		} else if str(plan[i], "ty") == "float" { // -1000 stands for negative zero (prints "-0")
+			driveArray2DT(plan[i:j], out, "float", func(v int) float64 {
+				if v == -1000 {
+					return math.Copysign(0, -1)
+				}
+				return float64(v)
+			}, func(x float64) int {
+				if x == 0 && math.Signbit(x) {
+					return -1000
+				}
+				return int(x)
+			})
+		} else if str(plan[i], "ty") == "slice" { // an element type that cannot be compared: []int{v}, nil for 0
+			driveArray2DT(plan[i:j], out, "slice", func(v int) []int {
+				if v == 0 {
+					return nil
+				}
+				return []int{v}
+			}, func(x []int) int {
+				if x == nil {
+					return 0
+				}
+				return x[0]
 			})
 		} else {
 			driveArray2DT(plan[i:j], out, "int", func(v int) int { return v }, func(v int) int { return v })
